@@ -211,18 +211,19 @@ def buffers_check(tier):
 def placement_jobs(tier):
     """State placement ("a block's preconditioner state exists only on its owning rank of each group"): the distributed harnesses of C06-C08 (which end with
     the placement obligations) on the layouts where ownership matters -- DDP with the group spanning the world, HSDP / HybridShard with num_trainers_per_group
-    equal to and a proper divisor of the replicate size.  FP32 communication, every gradient present."""
+    equal to and a proper divisor of the replicate size (FP32 communication, every gradient present), plus one layout per distributor with 4-byte parameters,
+    2-byte communication and block sizes that are not 64-byte multiples in either dtype (owner assignment and buffer layout must agree)."""
     from checks import c06, c07, c08
 
     out = []
     for j in c06.jobs_for(tier):
         c = j["cfg"]
-        if c["world"] == c["group"] and c["world"] > 1 and not c.get("presence") and c.get("comm", "FP32") == "FP32" and not c.get("communicate_params"):
+        if c.get("mixed_sizes") or (c["world"] == c["group"] and c["world"] > 1 and not c.get("presence") and c.get("comm", "FP32") == "FP32" and not c.get("communicate_params")):
             out.append(dict(j, id="ddp-" + j["id"]))
     for mod, key in ((c07, "hsdp"), (c08, "hybrid")):
         for j in mod.jobs_for(tier):
             h = j["cfg"].get(key)
-            if h and h.get("comm", "FP32") == "FP32" and not j["cfg"].get("presence") and not h.get("communicate_params"):
+            if h and (j["cfg"].get("mixed_sizes") or (h.get("comm", "FP32") == "FP32" and not j["cfg"].get("presence") and not h.get("communicate_params"))):
                 out.append(dict(j, id=f"{key}-" + j["id"]))
     return out
 
@@ -315,6 +316,15 @@ def replay(record):
         res = cls._distribute_buffer_sizes(StandIn(attr, G, 1), sizes)
         outs.append(res)
         probs += [f"{tag}: {p}" for p in _oracle(sizes, res, G)]
+        # the assignment is a function of the sizes alone: a second distributor in the same process (after an unrelated call) gets the same answer
+        again = [cls._distribute_buffer_sizes(StandIn(attr, G, 1), sizes) for _ in range(2)]
+        cls._distribute_buffer_sizes(StandIn(attr, G, 0), tuple(64 * (i + 1) for i in range(n + 1)))
+        again.append(cls._distribute_buffer_sizes(StandIn(attr, G, 1), sizes))
+        for res2 in again:
+            if res2 != res:
+                probs.append(f"{tag}: a later call with the same sizes gives {res2} instead of {res}")
+                probs += [f"{tag} (later call): {p}" for p in _oracle(sizes, res2, G)]
+                break
     if any(o != outs[0] for o in outs[1:]):
         probs.append("the three copies disagree")
     return bool(probs), f"sizes={sizes} group={G}: " + ("; ".join(probs) if probs else f"ok {outs[0]}")
